@@ -1,5 +1,5 @@
 (* C16 - aarch64 pointer-authentication bits are stripped from everything reported. *)
-From FH Require Import Consts Word A64 Unwinder A64Unw A64Exec A64UnwFacts PacFacts.
+From FH Require Import Consts Word A64 Unwinder A64Unw A64Exec A64UnwFacts HistFacts StaticFacts TruncWalk PacFacts PacFrame.
 Open Scope N_scope.
 
 (* "all bits outside the mask are clear" *)
@@ -36,6 +36,19 @@ Theorem C16_signed_stack_step : forall ru first rg m m',
   aexec ru first rg m' = aexec ru first rg m.
 Proof. exact aexec_signed. Qed.
 Print Assumptions C16_signed_stack_step.
+
+(* ... and for one whole call: when the step is rule-based, the rule it will execute is known before any memory is
+   read ([rule_at]: the cached rule, the rule or state-independent error the module's data gives for the address -
+   classification of C06 / C20 - or the fallback); if the stacks differ only in authentication bits of the word in
+   that rule's return-address slot, the call returns the same result, registers and cache *)
+Theorem C16_signed_stack_frame : forall u c a rg m m' r,
+  rule_at u c a = Some r ->
+  arule_wf r = true -> asp rg < W64 -> afp rg < W64 -> slots_distinct r ->
+  signed_at (mask rg) (lr_slot r (negb (is_ra a)) rg) m m' ->
+  let o := unwind_frame_a u c a rg m in let o' := unwind_frame_a u c a rg m' in
+  o_res _ _ o' = o_res _ _ o /\ o_regs _ _ o' = o_regs _ _ o /\ o_cache _ _ o' = o_cache _ _ o.
+Proof. exact unwind_frame_signed_a. Qed.
+Print Assumptions C16_signed_stack_frame.
 
 Example C16_signed_example :
   let rg := aregs_new_with_mask mask_24_40 0x4000 0x1000 0x1020 in
